@@ -789,7 +789,7 @@ pub open spec fn forked_at(t: VMThread, before: &VM, target: u32) -> bool {
             ready(old(vm), 2) && top_target(old(vm)) is Valid && r is Ok ==> final(vm).log() == old(vm).log(),                      //@ob C17.ctl.jumpi.valid_target_logs_nothing
             ready(old(vm), 2) && top_target(old(vm)) is Valid && r is Err ==> !is_jump_target_kind(r->Err_0.payload),               //@ob C17.ctl.jumpi.valid_target_error_is_other_kind
             // a bad target only concerns the thread that would have started there: Ok, nothing queued ...
-            ready(old(vm), 2) && !(top_target(old(vm)) is Valid) ==> r is Ok && final(vm).queued() == old(vm).queued(),             //@ob C17.ctl.jumpi.bad_target_is_ok
+            ready(old(vm), 2) && !(top_target(old(vm)) is Valid) ==> r is Ok && final(vm).queued() == old(vm).queued(),             //@ob C17.ctl.jumpi.bad_target_is_ok C08.ctl.jumpi.bad_target_still_explores_fall_through
             // ... not logged when such errors are tolerated ...
             ready(old(vm), 2) && !(top_target(old(vm)) is Valid) && old(vm).permissive() ==> final(vm).log() == old(vm).log(),      //@ob C17.ctl.jumpi.permissive_bad_target_not_logged
             // ... and logged, located at this instruction, in strict mode
@@ -876,7 +876,7 @@ pub open spec fn top_outcome(vm: &VM) -> execution::Result<u32> { outcome(vm.cod
         ensures
             // an error of one of the four jump-target kinds: Ok, the thread lives, nothing queued ...
             ready(old(vm), 2) && top_outcome(old(vm)) is Err && is_jump_target_kind(top_outcome(old(vm))->Err_0.payload)
-                ==> r is Ok && final(vm).killed() == old(vm).killed() && final(vm).queued() == old(vm).queued(),                     //@ob C17.ctl.jumpi_any.target_kind_is_ok
+                ==> r is Ok && final(vm).killed() == old(vm).killed() && final(vm).queued() == old(vm).queued(),                     //@ob C17.ctl.jumpi_any.target_kind_is_ok C08.ctl.jumpi_any.bad_target_still_explores_fall_through
             // ... the log is untouched when permissive ...
             ready(old(vm), 2) && top_outcome(old(vm)) is Err && is_jump_target_kind(top_outcome(old(vm))->Err_0.payload) && old(vm).permissive()
                 ==> final(vm).log() == old(vm).log(),                                                                                //@ob C17.ctl.jumpi_any.permissive_log_unchanged
